@@ -217,14 +217,16 @@ def generate_dependent_dispatch(tup, handlers, next_call, slf, name, err, nerr):
                         for h, types in handlers
                     ]
                     keyed = reduce(lambda a, b: {**a, **b}, all_keys)
-                    if (
-                        len(keyed) == sum(map(len, all_keys))
-                        and len(featured) < 4
-                    ):
+                    disjoint = len(keyed) == sum(map(len, all_keys))
+                    if disjoint and len(featured) < 4:
                         exclusive = True
                         keyexpr = None
-                    else:
+                    elif disjoint:
                         keyexpr = focus.keygen().format(arg=argname(k))
+                    else:
+                        # Several handlers may match the same value, so
+                        # they must all be checked to detect ambiguity.
+                        keyexpr = keyed = None
 
                 else:
                     exclusive = getattr(focus, "exclusive_type", False)
